@@ -159,6 +159,11 @@ class Describer:
              "sampling_interval": self.num(times["interval"], DIM["time"], "script", eff), "rng_seed": times.get("seed", 7)}
         if "tmax" in times:
             d["t_max"] = self.num(times["tmax"], DIM["time"], "script", eff)
+        if self.explicit_p > 0 and self.rng.random() < 0.25:
+            # the whole list as one unit-array {"value": [...], "units": u} in any time unit (the default t_max follows it)
+            x = self.rng.choice(list(self.systems.values()))
+            f = UO.conv(self.sc, D, x, DIM["time"])
+            d["t_sample"] = {"value": [float(Fr(t) * f) for t in times["ts"]], "units": x[1]}
         self.units_key(d, "script", decl)
         return self.rename("script", d)
 
